@@ -257,6 +257,7 @@ type BatchConfig struct {
 	Workers   int
 	VerifDir  string
 	ShrinkFor time.Duration
+	MaxFound  int
 }
 
 type found struct {
@@ -359,7 +360,7 @@ func RunBatch(w *World, chk Check, cfg BatchConfig) int {
 					mu.Lock()
 					if f := matchKnown(findings, v); f != nil {
 						knownHits[f.Text]++
-					} else if _, ok := newFound[v.Sig]; !ok && len(newFound) < 8 {
+					} else if _, ok := newFound[v.Sig]; !ok && len(newFound) < cfg.MaxFound {
 						newFound[v.Sig] = found{sc: sc, v: v}
 						fmt.Printf("  found: run=%d %s\n", i, v)
 					}
